@@ -40,5 +40,8 @@ Theorem src_x25_is_mcrf4xx p : bytes_ok p = true ->
 Proof. intros H. rewrite src_x25_reset, src_x25_write. apply (x25_sum_is_mcrf4xx p H). Qed.
 
 
+Theorem src_x25_new : src_x25_New = x25_init.
+Proof. reflexivity. Qed.
+
 Theorem src_x25_constants : Z.of_N x25_init = d_x25_X25_Reset_crc.
 Proof. reflexivity. Qed.
